@@ -22,6 +22,15 @@ the package (`ti_fresh`), re-executed from source immediately before (hence with
 caches), given the same scripted terminal and settings, once with the current
 query-enabled status and once with queries enabled.
 
+ABORTED computations: the ops CSA / CRA / COA / NVA call the getter with a FAULT armed
+in the scripted terminal; it fires once, at the first of these events INSIDE
+`query_terminal`: "kbd" -> KeyboardInterrupt while the reply is awaited (the timed
+`read_tty`), "oserr" -> OSError(EIO) from writing the request (`write_tty`), "termios" ->
+`termios.error` from `tcsetattr(TCSAFLUSH)`.  If the call never gets there (answered
+from a cache, by the ioctl, queries disabled, no tty) it returns normally.  When the
+exception reaches the caller the observation is [-1] and the body counters are put back
+(they count COMPLETED computations).  The fault is disarmed after the op.
+
 Modes (stdin JSON):  list of cases -> list of results;  a case is either a history
 ({"env", "t0", "ops"}), a thread race ({"threads": n, "fn": ...}) or a request for a
 fresh computation in this (new) interpreter ({"fresh": ...}).
@@ -52,6 +61,7 @@ assert term_image.__file__.startswith(SRC), term_image.__file__
 assert "tests" not in sys.modules
 
 FAKE_FD = 1000
+FAULT_MARK = "c15-injected-fault"
 NAMES = {0: None, 1: "kitty", 2: "konsole", 3: "wezterm", 4: "iterm2", 5: "xterm", 6: "vte", 7: "iterm.app",
          8: "apple_terminal"}
 SHOWN = {1: ["kitty", "Kitty", "KITTY"], 2: ["Konsole", "konsole", "KONSOLE"], 3: ["WezTerm", "wezterm", "WEZTERM"],
@@ -70,6 +80,23 @@ class Term:
         self.cols, self.rows, self.xpx, self.ypx = size
         self.pending = b""
         self.pres = env.get("pres", 0)
+        self.fault = None  # armed fault: "kbd" | "oserr" | "termios"
+        self.fired = 0
+
+    def fire(self, where):
+        """Raise the armed fault if `where` is its firing point (one shot)."""
+        f = self.fault
+        if f == "kbd" and where == "read":
+            exc = KeyboardInterrupt(FAULT_MARK)
+        elif f == "oserr" and where == "write":
+            exc = OSError(5, FAULT_MARK)
+        elif f == "termios" and where == "flush":
+            exc = real_termios.error(5, FAULT_MARK)
+        else:
+            return
+        self.fault = None
+        self.fired += 1
+        raise exc
 
     # -- what the terminal answers
     def reply(self, seq):
@@ -109,6 +136,7 @@ class Term:
     def write(self, data):
         if not self.env["tty"]:
             return None
+        self.fire("write")
         known = (ctl.CELL_SIZE_PX_b, ctl.TEXT_AREA_SIZE_PX_b, ctl.DA1_b, ctl.TEXT_FG_QUERY_b, ctl.TEXT_BG_QUERY_b,
                  ctl.XTVERSION_b)
         while data:
@@ -128,6 +156,7 @@ class Term:
         if timeout is None:
             out, self.pending = self.pending, b""
             return out
+        self.fire("read")  # interrupted while waiting for the terminal's reply
         buf = bytearray()
         while self.pending and more(buf):  # the real loop reads one byte at a time
             buf.append(self.pending[0])
@@ -150,6 +179,7 @@ class TermiosShim:
     def tcsetattr(self, fd, when, attr):
         assert fd == FAKE_FD, fd
         if when == real_termios.TCSAFLUSH:
+            self.term.fire("flush")
             self.term.pending = b""
 
     def tcdrain(self, fd):
@@ -238,6 +268,7 @@ def enc_nv(v):
     return [NAME_CODE.get(n, 99), VER_CODE.get(ver, 99)]
 
 
+ABORT_OPS = {"CSA": "CS", "CRA": "CR", "COA": "CO", "NVA": "NV"}
 COL_CALLS = {0: lambda f: f(), 1: lambda f: f(hex=False), 2: lambda f: f(hex=True)}
 
 # ---------------------------------------------------------------------------- twin
@@ -363,13 +394,36 @@ def run_history(case):
             obs = [int(bool(TextImage._is_on_kitty()))]
         elif k == "TS":
             obs = list(ts_probe())
+        elif k in ABORT_OPS:
+            # the getter with a fault armed inside query_terminal
+            snap = dict(counters)
+            term.fault, fired0 = op[-1], term.fired
+            assert term.fault in ("kbd", "oserr", "termios"), op
+            try:
+                if k == "CSA":
+                    obs = enc_cs(U.get_cell_size())
+                elif k == "CRA":
+                    obs = enc_ratio(term_image.get_cell_ratio())
+                elif k == "COA":
+                    obs = enc_cols(COL_CALLS[op[1]](U.get_fg_bg_colors))
+                else:
+                    obs = enc_nv(U.get_terminal_name_version())
+                assert term.fired == fired0, "the fault fired but the call returned normally"
+            except (KeyboardInterrupt, OSError, real_termios.error) as exc:
+                if FAULT_MARK not in map(str, exc.args) or term.fired != fired0 + 1:
+                    raise
+                obs = [-1]
+                counters.update(snap)  # counters count COMPLETED computations
+            finally:
+                term.fault = None
         else:
             raise AssertionError(op)
-        if k in ("CS", "CR", "CO", "NV", "TS", "K"):
-            kind = "NV" if k == "K" else k
-            key = op[1] if k == "CO" else 0
+        if k in ("CS", "CR", "CO", "NV", "TS", "K") or k in ABORT_OPS:
+            kind = "NV" if k == "K" else ABORT_OPS.get(k, k)
+            key = op[1] if k in ("CO", "COA") else 0
             fr_cur = fresh(kind, targs, swap, qen, key)
-            fr_en = fresh(kind, targs, swap, True, key)
+            # (with queries enabled now this is the very same computation: not repeated)
+            fr_en = list(fr_cur) if qen else fresh(kind, targs, swap, True, key)
             install(U, term, counters)  # os.environ was rewritten by the twin (same values)
         rows.append({"obs": obs, "fc": fr_cur, "fe": fr_en,
                      "n": [counters["cs"], counters["col"], counters["nv"], counters["ts"]]})
